@@ -217,7 +217,7 @@ Proof.
   assert (Hren : map (rename (fun i => mk_task jg release a0 (next + index_of i order) i)) (g_ch (jg_graph jg))
                  = map (fun kv => (task_id (fst kv), map task_id (snd kv))) (g_ch (jg_graph jg))).
   { apply map_ext. intros kv. unfold rename. rewrite Hid. f_equal. apply map_ext. intros c. apply Hid. }
-  rewrite Hren in H. step H. do 4 step H.
+  rewrite Hren in H. step H. do 5 step H.
   match type of H with (if ?c then _ else _) = _ => destruct c; [discriminate|] end.
   inversion H; subst; clear H. cbn [tg_graph].
   split; [reflexivity|]. split; [|split; [|reflexivity]].
@@ -238,4 +238,19 @@ Example instantiation_example :
     map t_id (tg_tasks tg) = [100; 101; 102] /\ map t_deadline (tg_tasks tg) = [us_time 536; us_time 536; us_time 536] /\
     g_ch (tg_graph tg) = [(100, [101; 102]); (101, []); (102, [])] /\
     uniform_contract 370 10 50 (mkF 156 0) = true.
+Proof. eexists. split; [vm_compute; reflexivity|]. repeat split. Qed.
+
+(* --use_branch_predicated_deadlines on the same graph, C given probability 0: the path is A -> B (300 + 50, the SLO of B
+   is not used), and the deadline follows *)
+Definition ex_jg_bp : jobgraph :=
+  mkJG 0 [mkJob 0 0 et_invalid false false (mkF 1 0) [us_time 100; us_time 300];
+          mkJob 1 1 (us_time 500) false false (mkF 1 0) [us_time 50];
+          mkJob 2 2 et_invalid false false (mkF 0 0) [us_time 70]]
+       (mkG [(0, [1; 2]); (1, []); (2, [])] [(1, [0]); (2, [0])])
+       (mkPol FIXED (us_time 10) 2 (mkF (-1) 0) (mkF (-1) 0) 0 et_zero (mkF 0 0)) (Some (0, 0)).
+Example branch_predicated_example :
+  exists tg, generate_task_graph ex_jg_bp (mkIF 0 (2 ^ 63 - 1) (0, 0) true) (us_time 10) 0 0 [mkF 0 0; mkF 0 0] = Ok (tg, 3, []) /\
+    completion_time ex_jg_bp = Ok (us_time 800) /\
+    deadline_base ex_jg_bp (mkIF 0 (2 ^ 63 - 1) (0, 0) true) (tg_graph tg) (tg_tasks tg) = Ok (us_time 350) /\
+    map t_deadline (tg_tasks tg) = [us_time 360; us_time 360; us_time 360].
 Proof. eexists. split; [vm_compute; reflexivity|]. repeat split. Qed.
